@@ -11,7 +11,7 @@ import os
 
 from verifkit import Infra, read_ndjson, write_ndjson
 
-STARTS = {"AStart", "LStart", "BStart", "SStart", "Conn", "SyncEnd", "Note", "GReset"}
+STARTS = {"AStart", "LStart", "BStart", "SStart", "Conn", "SyncEnd", "QEnd", "Note", "GReset"}
 MAX_REJECTIONS = 8
 
 
@@ -144,6 +144,20 @@ def judge_msg(case):
     return True, "observables right; verdict/footprint differs from Sync.tla"
 
 
+def judge_bft(case):
+    e = case[-1]
+    if e.get("timeout"):
+        return True, "the harness gave up on this case (absolute cap)"
+    if e["via"] == "sync" and not e["higherScore"]:
+        return True, "peer with a lower announced total score: not selected (design limit)"
+    if not e["bestIsRef"]:
+        return False, ("finality/quality variant %s: the node's best differs from that of a reference node that was handed the "
+                       "same blocks (imported %d, reference %d)" % (e["case"], e["imported"], e["refImported"]))
+    if not e["storeOK"] or (e["via"] == "download" and e["imported"] != e["refImported"]):
+        return False, "finality/quality variant %s: store differs from the reference node's" % e["case"]
+    return True, "observables right"
+
+
 def judge_sync(case):
     e = case[-1]
     if e.get("timeout"):
@@ -154,6 +168,9 @@ def judge_sync(case):
         if e.get("dropped") and not e.get("hostile"):
             return False, ("the connection to an honest peer with a preferred head was lost during Sync and the node never reached "
                            "that head (%s, local head %s, remote head %s)" % (e["case"], e.get("H"), e.get("R")))
+        if e.get("looping"):
+            return False, ("Sync repeats the same fruitless download: GetBlocksFromNumber(%d) five times without a single import, the "
+                           "peer's preferred head is never reached (%s, local head %s, remote head %s)" % (e["looping"], e["case"], e.get("H"), e.get("R")))
         if e.get("stalled"):
             return False, ("Sync never adopted the head of a connected peer that its fork choice prefers%s (%s): no request on the "
                            "connection and no import for six ticks of the sync timer" % (" (exact total-score tie, smaller id)" if e.get("tie") else "", e["case"]))
@@ -201,6 +218,8 @@ def judge(case, off=None):
         return judge_msg(case)
     if k == "SyncEnd":
         return judge_sync(case)
+    if k == "QEnd":
+        return judge_bft(case)
     return True, ""
 
 
@@ -220,6 +239,8 @@ def case_label(case):
 
 def signature(case, why):
     h = case[0]
+    if h["e"] == "QEnd":
+        return "bft:" + str(h.get("case"))
     if h["e"] == "GReset":
         kind = ("not-propagated" if "not propagated" in why else "state-changed" if "changed" in why or "holds" in why
                 else "pool-verdict" if "the pool" in why else "forbidden-send")
@@ -244,6 +265,8 @@ def signature(case, why):
         return "message:%s:%s" % (case[1].get("code"), case[1].get("cls"))
     if h.get("dropped") and not h.get("hostile") and h.get("prefers") and not h.get("converged"):
         return "sync-fails:honest-peer-lost" + (":remote-shorter" if h.get("R", 0) < h.get("H", 0) else "")
+    if h.get("looping") and h.get("prefers") and not h.get("converged"):
+        return "sync-fails:fruitless-download-loop"
     if h.get("tie") and h.get("prefers") and not h.get("converged"):
         return "sync:tie-not-followed"
     return "sync:" + str(h.get("hostile", ""))
@@ -354,7 +377,14 @@ def run_driver(ctx, name, args, label, timeout=1800):
 def binding_demo(ctx, events, label, corrupt, module="Trace_Sync"):
     """corrupt(cases) -> list of (name, events); every variant must be REJECTED by Trace_Sync."""
     cases = split_cases(events)
-    for name, evs in corrupt(cases):
+    try:
+        variants = corrupt(cases)
+    except (IndexError, KeyError) as ex:
+        # the recorded trace lacks the shape a variant is cut from (that happens when the code under test misbehaves): the
+        # validation that follows will say why; on a conforming trace a missing demonstration is an error of the check
+        ctx.cov.setdefault("binding_demo_skipped", []).append("%s: %r" % (label, ex))
+        return
+    for name, evs in variants:
         path = os.path.join(ctx.tmp("demo-" + label), name + ".ndjson")
         write_ndjson(path, evs)
         ok, hwm, ln, r = ctx.validate_trace("net", module, path, timeout=600)
